@@ -341,6 +341,11 @@ var boundaryTemplates = []struct {
 	{"m = {\"a\": nil, \"b\": nil}\nn = 0\nfor k in m {\nn++\n}\nprobe(n)", []string{"(i 2)"}, ""},
 	{"func find(m, want) {\nfor k, v in m {\nif k == want {\nreturn \"found\"\n}\n}\nreturn \"missing\"\n}\nprobe(find({\"a\": nil, \"b\": nil}, \"b\"))", []string{"(s 666f756e64)"}, ""},
 	{"m = {\"only\": nil}\nfor k, v in m {\nprobe(k)\nprobe(v)\n}", []string{"(s 6f6e6c79)", "nil"}, ""},
+	// the loop variable is the element itself - a pointer element stays a pointer (slices and channels)
+	{"x = 7\na = [&x]\nfor p in a {\nprobe(*p)\n}", []string{"(i 7)"}, ""},
+	{"x = 7\ny = 8\na = [&x, &y]\nt = 0\nfor p in a {\n*p = *p + 1\nt += *p\n}\nprobe(t)", []string{"(i 17)"}, ""},
+	{"x = 7\nc = make(chan interface, 1)\nc <- &x\nclose(c)\nfor p in c {\nprobe(*p)\n}", []string{"(i 7)"}, ""},
+	{"x = 7\na = [&x]\nfor p in a {\nprobe(p == a[0])\nprobe(*p == *a[0])\n}", []string{"(b 1)", "(b 1)"}, ""},
 	// assigning to a for-in variable does not leak into the next iteration
 	{"t = 0\nfor x in [5, 20, 3] {\nif x > 10 {\nx = 10\n}\nt += x\n}\nprobe(t)", []string{"(i 18)"}, ""},
 	{"r = []\nfor x in [1, 2, 3] {\nx++\nr += x\n}\nprobe(r)", []string{"(l (i 2) (i 3) (i 4))"}, ""},
